@@ -391,8 +391,8 @@ class World:
         self.server_counter = 0
 
     # ------------------------------------------------------------------ helpers
-    def violation(self, kind, detail=None):
-        self.violations.append({"kind": kind, "t": round(self.k.now, 6), "detail": detail})
+    def violation(self, kind, detail=None, key=""):
+        self.violations.append({"kind": kind, "key": key, "t": round(self.k.now, 6), "detail": detail})
         self.k.rec("VIOLATION", kind)
 
     def probe(self, name, n=1):
